@@ -308,6 +308,7 @@ type fctx struct {
 	fieldCanon  map[string]ssa.Value
 	fieldStored map[string]bool
 	fieldStores map[string][]*ssa.Store
+	fieldLoads  map[string][]*ssa.UnOp
 	budget      int
 }
 
@@ -569,6 +570,10 @@ func (fc *fctx) ResolveSlice(v ssa.Value) Ref {
 					}
 				}
 				if _, ok := x.X.(*ssa.FieldAddr); ok {
+					if sv := fc.storedFieldValue(x); sv != nil {
+						v = sv
+						continue
+					}
 					if cv := fc.canonicalFieldLoad(x); cv != nil {
 						return Ref{cv, off}
 					}
@@ -627,6 +632,7 @@ func (fc *fctx) canonicalFieldLoad(u *ssa.UnOp) ssa.Value {
 		fc.fieldCanon = map[string]ssa.Value{}
 		fc.fieldStored = map[string]bool{}
 		fc.fieldStores = map[string][]*ssa.Store{}
+		fc.fieldLoads = map[string][]*ssa.UnOp{}
 		var scan func(f *ssa.Function)
 		scan = func(f *ssa.Function) {
 			for _, b := range f.Blocks {
@@ -647,6 +653,7 @@ func (fc *fctx) canonicalFieldLoad(u *ssa.UnOp) ssa.Value {
 									if _, has := fc.fieldCanon[k]; !has {
 										fc.fieldCanon[k] = x
 									}
+									fc.fieldLoads[k] = append(fc.fieldLoads[k], x)
 								}
 							}
 						}
@@ -671,6 +678,37 @@ func (fc *fctx) canonicalFieldLoad(u *ssa.UnOp) ssa.Value {
 	if rep == nil {
 		return nil
 	}
+	// the earliest load of the path that reaches this one with no store to the field possible in between:
+	// loads after `x.f = x.f[:n]` form their own group, so a guard on one of them covers the others
+	if len(fc.fieldStores[fieldID(fa)]) > 0 {
+		for _, l := range fc.fieldLoads[k] {
+			if l == u {
+				break
+			}
+			if !instrReaches(l, u) {
+				continue
+			}
+			separated := false
+			for _, st := range fc.fieldStores[fieldID(fa)] {
+				if instrReaches(l, st) && instrReaches(st, u) {
+					separated = true
+					break
+				}
+			}
+			if !separated {
+				// l itself must not be re-reached through a store (loop)
+				loop := false
+				for _, st := range fc.fieldStores[fieldID(fa)] {
+					if instrReaches(l, st) && instrReaches(st, l) {
+						loop = true
+					}
+				}
+				if !loop {
+					return l
+				}
+			}
+		}
+	}
 	// A store to the field (through any pointer of the type) that can execute between the representative
 	// load and this one separates them. A store after both, or before both, does not.
 	if ri, ok := rep.(ssa.Instruction); ok && rep != ssa.Value(u) {
@@ -688,6 +726,52 @@ func (fc *fctx) canonicalFieldLoad(u *ssa.UnOp) ssa.Value {
 		}
 	}
 	return rep
+}
+
+// storedFieldValue: the load u of a field path is dominated by a store to the same path and no other store to
+// that field (through any pointer of the type) can execute between the two: the load yields the stored value
+// (`c.prec = append(c.prec, x); ... c.prec[len(c.prec)-1]`).
+func (fc *fctx) storedFieldValue(u *ssa.UnOp) ssa.Value {
+	fa, ok := u.X.(*ssa.FieldAddr)
+	if !ok {
+		return nil
+	}
+	k := pathKey(fa, 0)
+	if k == "" {
+		return nil
+	}
+	if fc.fieldCanon == nil {
+		_ = fc.canonicalFieldLoad(u) // builds the tables
+	}
+	if fc.fieldStored[fieldID(fa)] {
+		return nil
+	}
+	var best *ssa.Store
+	for _, st := range fc.fieldStores[fieldID(fa)] {
+		sfa, ok := st.Addr.(*ssa.FieldAddr)
+		if !ok || pathKey(sfa, 0) != k {
+			continue
+		}
+		if !storeBefore(st, u) {
+			continue
+		}
+		if best == nil || storeBefore(best, st) {
+			best = st
+		}
+	}
+	if best == nil {
+		return nil
+	}
+	for _, st := range fc.fieldStores[fieldID(fa)] {
+		if st == best {
+			continue
+		}
+		if instrReaches(best, st) && instrReaches(st, u) {
+			return nil
+		}
+	}
+	// a loop from the store back to itself before the load re-executes the store: still the stored value
+	return best.Val
 }
 
 // instrReaches: can control flow from just after a to b (same function)?
